@@ -152,6 +152,16 @@ def _split_case(draw):
     # one to three split strings for different residue names; the names of the new residues come from a
     # small pool and may be reused by different strings
     chosen = draw(st.lists(st.sampled_from(cands), min_size=1, max_size=3, unique_by=lambda c: c[0]))
+    # residue numbers with gaps (1, 2, 5, ...) in some molecule types, and new residue names that may equal
+    # the name of another residue of the system
+    for mt in spec["moltypes"]:
+        if draw(st.booleans()):
+            resids, cur = [], 0
+            for _ in mt["residues"]:
+                cur += draw(st.sampled_from([1, 1, 2, 3]))
+                resids.append(cur)
+            mt["resids"] = resids
+    other_names = sorted({r["resname"] for mt in spec["moltypes"] for r in mt["residues"]} - {c[0] for c in chosen})
     strings, splits = [], []
     for resname, rd in chosen:
         n = len(rd["atoms"])
@@ -159,7 +169,7 @@ def _split_case(draw):
         order = list(draw(st.permutations(range(n))))
         cuts = sorted(draw(st.lists(st.integers(1, n - 1), min_size=ngroups - 1, max_size=ngroups - 1, unique=True)))
         groups = [sorted(order[i:j]) for i, j in zip([0] + cuts, cuts + [n])]
-        newnames = draw(st.lists(st.sampled_from(["X1", "X2", "X3"]), min_size=ngroups, max_size=ngroups, unique=True))
+        newnames = draw(st.lists(st.sampled_from(["X1", "X2", "X3"] + other_names), min_size=ngroups, max_size=ngroups, unique=True))
         strings.append(f"{resname}:" + ":".join(nn + "-" + ",".join(rd["atoms"][i]["name"] for i in grp)
                                                 for nn, grp in zip(newnames, groups)))
         splits.append({"resname": resname, "groups": {nn: [rd["atoms"][i]["name"] for i in grp]
